@@ -3,7 +3,7 @@
 proof:          lean/PymtlVerif/Props/C08.lean (model: Model/Nets.lean)
 correspondence: top.get_all_value_nets() / get_signal_adjacency_dict() of generated hierarchical designs, elaborated
                 under several statement orders and side flips, vs `nets`/`resolve` of the model; then simulation
-direct oracle:  union-find over the connection list + bit-level source analysis (c08_gen.oracle) + "all orders give the
+direct oracle:  eval(repr(member)) is member for every net member + union-find over the connection list + bit-level source analysis (c08_gen.oracle) + "all orders give the
                 same nets and writers" + "every member of a net carries the writer's value" (DefaultPassGroup)
 """
 import random
@@ -29,7 +29,7 @@ TRUSTED = [
 ]
 ASSUMPTIONS = [
   'designs: 1-3 levels of components, Bits and (nested) bitstruct signals, connections between signals / fields / slices / constants; '
-  'no interfaces, no method ports, no lists of signals, no Placeholder components',
+  'list-valued struct fields (2-D lists of Bits and of structs, a 1-D list) included; no interfaces, no method ports, no lists of top-level signals, no Placeholder components',
   'well-formedness assumed by the theorems (Design.WF) is checked by the driver on every request (Design.wf, proved sound: PV.C09.wf_checked)',
   'main stream never lets a net member share bits with another member of the same net (that shape is the known finding '
   'self-overlap-net, generated in its own labelled stream)',
@@ -115,6 +115,14 @@ def check_design(ck, d, variants, stream, sim_variants, shape_sig=None, reps=Non
         continue
       rn = g.real_nets(top)
       ra = g.real_adj(top)
+      # direct oracle 0: the name of every net member addresses that member
+      for (w_, net_) in top.get_all_value_nets():
+        for m_ in net_:
+          if hasattr(m_, 'is_signal') and m_.is_signal():
+            try: same = eval(repr(m_), {'s': top}) is m_
+            except Exception: same = False
+            if not same:
+              ck.violation('name-does-not-address-member', {'stream': stream}, case, {'member': repr(m_), 'source': d.source([var])})
       # direct oracle 1: nets are the connected components of the connection list
       if sorted(n for (_, n) in rn) != uf:
         ck.violation('nets-not-components', {'stream': stream}, case, {'impl_nets': rn, 'components': uf, 'source': d.source([var])})
@@ -140,7 +148,8 @@ def check_design(ck, d, variants, stream, sim_variants, shape_sig=None, reps=Non
         try:
           fails = g.simulate_and_check(top, d, mod, ck.rng, nets)
         except Exception as e:
-          raise InfraError(f'simulation of an accepted design failed: {type(e).__name__}: {str(e)[:400]}\n{d.source([var])}')
+          # an accepted design whose nets cannot be simulated: the members do not carry the writer's value
+          fails = [dict(exception=type(e).__name__, message=str(e)[:400])]
         ck.hist('simulated', 'yes')
         if fails:
           sig = dict(shape_sig) if shape_sig else {'stream': stream}
